@@ -22,6 +22,7 @@ MCArgs(name, h, dep) ==
                                 \cup {[obj |-> "a", nodes |-> <<x, x>>] : x \in Midpoints(U)}
                                 \cup {[obj |-> "a", nodes |-> <<Umin(U), Umax(U)>>]}
     [] name = "CvKnotRemove" -> {[obj |-> "a", nodes |-> <<x>>, tol |-> <<"default">>] : x \in InteriorSet(U) \cup {Q(5, 7), Umin(U)}}
+                                \cup {[obj |-> "a", nodes |-> <<x, y>>, tol |-> <<"default">>] : x \in InteriorSet(U), y \in InteriorSet(U) \cup {Q(5, 7)}}
     [] name = "CvDegreeIncrease" -> {[obj |-> "a", times |-> 1, form |-> f] : f \in {"method", "setter"}}
     [] name = "CvDegreeDecrease" -> {[obj |-> "a", times |-> 1, tol |-> <<"default">>, form |-> "method"]}
     [] name = "CvClean" -> {[obj |-> "a", which |-> "all"]}
